@@ -446,20 +446,44 @@ Fixpoint add_rows_list (t : name) (sc : tschema) (rows : list row) (i : nat) (l 
       end
   end.
 
-(** [IndexManager::check_unique_constraints_for_insert(table_name, schema, row)], over all rows of
-    the statement: (some index panics, some index reports a duplicate) *)
-Definition uniq_probe_row (t : name) (sc : tschema) (r : row) (x : sindex) : bool * bool :=
-  if name_eqb (si_table x) t && si_unique x then
+(** probing the UNIQUE user indexes selected by [sel] with the keys of the statement's rows, over all
+    rows: (some index panics, some index reports an error).  A missing index column is a panic
+    ([.expect]) or an error ([ok_or_else]) depending on the caller; a short row always panics *)
+Definition probe_row (sel : sindex -> bool) (missing_err : bool) (sc : tschema) (r : row) (x : sindex) : bool * bool :=
+  if sel x then
     match extract_key sc (si_cols x) r with
     | KOk k => (false, negb (key_has_null k) && is_some (dlookup k (si_data x)))
-    | _ => (true, false)
+    | KMissing => if missing_err then (false, true) else (true, false)
+    | KOob => (true, false)
     end
   else (false, false).
 
-Definition uniq_probe (t : name) (sc : tschema) (rows : list row) (l : list (name * sindex)) : bool * bool :=
+Definition probe (sel : sindex -> bool) (missing_err : bool) (sc : tschema) (rows : list row) (l : list (name * sindex)) : bool * bool :=
   fold_left (fun acc r =>
-      fold_left (fun acc2 p => let '(pn, er) := uniq_probe_row t sc r (snd p) in (fst acc2 || pn, snd acc2 || er)) l acc)
+      fold_left (fun acc2 p => let '(pn, er) := probe_row sel missing_err sc r (snd p) in (fst acc2 || pn, snd acc2 || er)) l acc)
     rows (false, false).
+
+(** [IndexManager::check_unique_constraints_for_insert(table_name, schema, row)]: the unique indexes
+    whose [metadata.table_name == table_name] *)
+Definition uniq_probe (t : name) (sc : tschema) (rows : list row) (l : list (name * sindex)) : bool * bool :=
+  probe (fun x => name_eqb (si_table x) t && si_unique x) false sc rows l.
+
+(** [IndexManager::create_index] for a UNIQUE index (as of 3e485d50): the existing rows are scanned
+    before anything is registered; a NULL-free key seen twice is an error, [row.values[idx]] on a
+    short row panics *)
+Inductive ures := UOk | UDup | UPanic.
+Fixpoint unique_scan (sc : tschema) (cols : list name) (rows : list row) (seen : list (list value)) : ures :=
+  match rows with
+  | [] => UOk
+  | r :: rest =>
+      match extract_key sc cols r with
+      | KOk k =>
+          if key_has_null k then unique_scan sc cols rest seen
+          else if existsb (key_eqb k) seen then UDup
+          else unique_scan sc cols rest (k :: seen)
+      | _ => UPanic
+      end
+  end.
 
 (* ------------------------------------------------------------------------------------------ *)
 (** * Database / Operations (storage database/{core,operations}.rs) *)
@@ -617,19 +641,28 @@ Definition exec_create_index (s : state) (iname tn : name) (unique : bool) (cols
         match cat_add_index s (mkci iname t cols unique) with
         | None => (s, RErr)
         | Some s1 =>
+            (* when the storage side fails the catalog entry is taken back (as of 3e485d50):
+               [catalog.drop_index(&table_name, index_name)] *)
+            let undo := set_cidx s1 (aremove (ci_key t iname) (s_cidx s1)) in
             (* Operations::create_index(index_name, table_name = t, ..) *)
             match ops_find_key s1 t, cat_get_table s1 t with
             | Some k, Some csc2 =>
                 match alookup k (s_tabs s1) with
-                | None => (s1, RErr)
+                | None => (undo, RErr)
                 | Some tb =>
-                    if negb (all_cols_found csc2 cols) then (s1, RErr)
-                    else match build_data csc2 cols (t_rows tb) 0 [] with
-                         | Some d => (set_sidx s1 (ainsert (idx_norm iname) (mksi iname t unique cols d) (s_sidx s1)), ROk 0)
-                         | None => (s, RPanic)
-                         end
+                    if negb (all_cols_found csc2 cols) then (undo, RErr)
+                    else
+                      match (if unique then unique_scan csc2 cols (t_rows tb) [] else UOk) with
+                      | UPanic => (s, RPanic)
+                      | UDup => (undo, RErr)
+                      | UOk =>
+                          match build_data csc2 cols (t_rows tb) 0 [] with
+                          | Some d => (set_sidx s1 (ainsert (idx_norm iname) (mksi iname t unique cols d) (s_sidx s1)), ROk 0)
+                          | None => (s, RPanic)
+                          end
+                      end
                 end
-            | _, _ => (s1, RErr)
+            | _, _ => (undo, RErr)
             end
         end
   end.
@@ -846,13 +879,21 @@ Definition exec_rename_table (s : state) (tn new : name) : state * result :=
        end.
 
 (** phase 5 of RowValidator (insert/constraints.rs enforce_unique_indexes): the UNIQUE user indexes
-    found by [list_indexes_for_table] (upper-case comparison of the table names!) must have their
-    columns in the CATALOG schema; the duplicate probe itself never hits (C10: Integer probe against
-    Double keys) *)
-Definition phase5_err (s : state) (tn : name) (csc : tschema) : bool :=
-  existsb (fun p => let x := snd p in
-                    name_eqb (upper (si_table x)) (upper tn) && si_unique x && negb (all_cols_found csc (si_cols x)))
-          (s_sidx s).
+    found by [list_indexes_for_table] (upper-case comparison of the table names!) are probed with the
+    key built from the new row through the CATALOG schema: a column the schema cannot resolve is an
+    error, and so is a NULL-free key the index already holds ([IndexData::contains_key] normalises
+    the probe as of 53cdfad0) *)
+Definition phase5_probe (tn : name) (csc : tschema) (rows : list row) (l : list (name * sindex)) : bool * bool :=
+  probe (fun x => name_eqb (upper (si_table x)) (upper tn) && si_unique x) true csc rows l.
+
+(** phases 2 and 3 of RowValidator probe the stored table's PRIMARY KEY / UNIQUE hash indexes with the
+    key built from the columns the CATALOG schema can resolve.  The model assumes fresh values, so a
+    key with at least one component never collides; a key none of whose columns resolves (left by
+    CHANGE COLUMN + DROP COLUMN of a key column, then a write-back) is the empty tuple, collides with
+    every earlier row and with the second row of the statement, and is outside the model *)
+Definition degenerate_keys (csc : tschema) : bool :=
+  (match pk_indices csc with Some [] => true | _ => false end)
+  || existsb (fun u => match filter_map_idx csc u with [] => true | _ => false end) (ts_uniques csc).
 
 (** phase 4 of RowValidator: every CHECK constraint of the CATALOG schema is evaluated on the new row;
     the harness's constraints are [col >= 0] over non-negative values, so the only way to fail is a
@@ -870,9 +911,14 @@ Definition exec_insert (s : state) (tn : name) (zrows : list (list Z)) : state *
     | None => (s, RErr)
     | Some csc =>
         if negb (forallb (fun r => Nat.eqb (length r) (length (ts_cols csc))) rows) then (s, RErr)
+        else if degenerate_keys csc then (s, RUnmodelled)
         else if checks_err csc then (s, RErr)
-        else if phase5_err s tn csc then (s, RErr)
-        else match ops_find_key s tn with
+        else match phase5_probe tn csc rows (s_sidx s) with
+        | (true, true) => (s, RNondet)
+        | (true, false) => (s, RPanic)
+        | (false, true) => (s, RErr)
+        | (false, false) =>
+             match ops_find_key s tn with
              | None => (s, RErr)
              | Some k =>
                  match alookup k (s_tabs s) with
@@ -893,6 +939,7 @@ Definition exec_insert (s : state) (tn : name) (zrows : list (list Z)) : state *
                      end
                  end
              end
+        end
     end
   end.
 
